@@ -735,7 +735,7 @@ def op_add_table(sim: Sim, a) -> str:
     m = ds.model
     si = a["s"] % len(m.sheets)
     sm = m.sheets[si]
-    if len(sm.tables) >= 7 or m.ncells() > CELL_CAP:
+    if len(sm.tables) >= sim.cfg.get("max_items", 7) or m.ncells() > CELL_CAP:
         return "skip"
     name = a.get("name")
     rows, cols = max(1, a.get("rows", 12)), max(1, a.get("cols", 8))
@@ -779,7 +779,7 @@ def op_add_sheet(sim: Sim, a) -> str:
     if ds is None:
         return "skip"
     m = ds.model
-    if len(m.sheets) >= 7 or m.ncells() > CELL_CAP:
+    if len(m.sheets) >= sim.cfg.get("max_items", 7) or m.ncells() > CELL_CAP:
         return "skip"
     name = a.get("name")
     tname = a.get("tname", "Table 1")
